@@ -17,6 +17,12 @@ struct Inner {
     out: Box<dyn Write + Send>,
     pending: Option<PendingReads>,
     lines: u64,
+    /// run-length mode (real-time server harness): a read series identical to the one written just before it, with
+    /// nothing in between, is counted instead of written; the count follows as one `reads_rep` event.  A peer that
+    /// floods a session with one request thousands of times otherwise produces traces of several hundred megabytes.
+    rle: bool,
+    last: Option<(u8, u8, u32, Vec<u32>)>,
+    rep: u64,
 }
 
 #[derive(Clone)]
@@ -37,6 +43,9 @@ impl Sink {
                 out,
                 pending: None,
                 lines: 0,
+                rle: false,
+                last: None,
+                rep: 0,
             })),
             progress: Arc::new(AtomicU64::new(0)),
         }
@@ -46,11 +55,42 @@ impl Sink {
         self.inner.lock().unwrap_or_else(|e| e.into_inner())
     }
 
+    pub fn set_run_length(&self, on: bool) {
+        let mut g = self.lock();
+        Self::flush_pending(&mut g);
+        Self::flush_rep(&mut g);
+        g.rle = on;
+    }
+
+    fn flush_rep(inner: &mut Inner) {
+        if inner.rep > 0 {
+            if let Some((u, t, s, outs)) = inner.last.as_ref() {
+                let v = json!({"e":"reads_rep","u":u,"t":t,"s":s,"n":outs.len(),"k":inner.rep});
+                let _ = writeln!(inner.out, "{}", v);
+                inner.lines += 1;
+            }
+        }
+        inner.rep = 0;
+        inner.last = None;
+    }
+
     fn flush_pending(inner: &mut Inner) {
         if let Some(p) = inner.pending.take() {
+            if inner.rle {
+                if let Some((u, t, s, outs)) = inner.last.as_ref() {
+                    if *u == p.u && *t == p.t && *s == p.start && *outs == p.outs {
+                        inner.rep += 1;
+                        return;
+                    }
+                }
+                Self::flush_rep(inner);
+            }
             let v = json!({"e":"reads","u":p.u,"t":p.t,"s":p.start,"n":p.outs.len(),"outs":p.outs});
             let _ = writeln!(inner.out, "{}", v);
             inner.lines += 1;
+            if inner.rle {
+                inner.last = Some((p.u, p.t, p.start, p.outs));
+            }
         }
     }
 
@@ -67,6 +107,7 @@ impl Sink {
         self.bump();
         let mut g = self.lock();
         Self::flush_pending(&mut g);
+        Self::flush_rep(&mut g);
         let _ = writeln!(g.out, "{}", v);
         g.lines += 1;
     }
@@ -93,6 +134,7 @@ impl Sink {
     pub fn flush(&self) {
         let mut g = self.lock();
         Self::flush_pending(&mut g);
+        Self::flush_rep(&mut g);
         let _ = g.out.flush();
     }
 
